@@ -72,7 +72,10 @@ impl Image {
 
     pub(crate) fn vec_from_document(document: &Document) -> Result<Vec<Self>> {
         let mut images = Vec::new();
-        if let Some(images2d_node) = document.descendants().find(|n| n.is_e57_tag("images2D")) {
+        if let Some(images2d_node) = document
+            .root_element()
+            .children()
+            .find(|n| n.is_e57_tag("images2D")) {
             for n in images2d_node.children() {
                 if n.is_e57_tag("vectorChild") && n.attribute("type") == Some("Structure") {
                     let image = Self::from_node(&n)?;
